@@ -143,6 +143,7 @@ impl RefZero for ZConst<3> { const UNIT: usize = 2; fn image<const N: usize>(&se
 macro_rules! via_zero { ($($t:ty),*) => {$( impl Ref for $t { fn enc<const N: usize>(&self, o: &mut RefBuf<N>) { enc_zero(self, o); } } )*}; }
 via_zero!(ZeroS, ZTail, ZAl32, ZGen<u32>, ZNest, ZUnit, ZAl4, ZConst<3>, (u32,), (u16, u16), (u64, u64, u64));
 impl<T: RefZero, const K: usize> Ref for [T; K] { fn enc<const N: usize>(&self, o: &mut RefBuf<N>) { enc_zero(self, o); } }
+impl<const K: usize> Ref for [Vec<u16>; K] { fn enc<const N: usize>(&self, o: &mut RefBuf<N>) { let mut i = 0; while i < K { self[i].enc(o); i += 1; } } }
 impl<const K: usize> Ref for [String; K] { fn enc<const N: usize>(&self, o: &mut RefBuf<N>) { let mut i = 0; while i < K { self[i].enc(o); i += 1; } } }
 
 // sequences: which flavour is chosen by the element type (written out per instantiation)
